@@ -447,7 +447,8 @@ def inline_tr_text(rng, star_ok=True):
 
 FRACS = ['1', '0.5', '2.5e-2', '1.0', '0.25', '3', '7.5E-1', '0.125']
 ZAIDS = ['1001', '8016', '92235', '26056', '6000', '13027', '92238.70c',
-         '1002.80c', '40000']
+         '1002.80c', '40000', '103262', '104267.80c', '112285', '118294',
+         '95241', '2004', '83209']
 
 
 def gen_material(rng):
